@@ -37,7 +37,7 @@ def generate(rng, tier):
     op = rng.choice(OPS)
     nrow = gen.gen_nrow(rng, big=(tier == "thorough"))
     hostile = 0.6 if op == "unique" else 0.25
-    spec = gen.gen_frame_spec(rng, nrow=nrow, rid="_rid_", hostile=hostile, tags=tags)
+    spec = gen.gen_frame_spec(rng, nrow=nrow, rid="_rid_", hostile=hostile, tags=tags, kinds=gen.KINDS_KEY + ["timedelta", "float32"])
     case = {"op": op, "spec": spec, "tags": sorted(tags)}
     cols = [s[0] for s in spec if s[0] != "_rid_"]
     if op in ("filter", "filter_out"):
@@ -89,12 +89,14 @@ def generate(rng, tier):
 
 def _to_np_value(kind, v):
     if v is None:
-        if kind in ("float",): return np.nan
+        if kind in ("float", "float32"): return np.nan
+        if kind == "timedelta": return np.timedelta64("NaT")
         if kind in ("str", "lstr", "ustr"): return ""
         if kind in ("date", "datetime"): return np.datetime64("NaT")
         return None
     if kind == "date": return np.datetime64(v.isoformat(), "D")
     if kind == "datetime": return np.datetime64(v.isoformat(), "us")
+    if kind == "timedelta": return np.timedelta64(v)
     return v
 
 def execute(case):
